@@ -13,3 +13,13 @@ func Point(name string) {
 		h(name)
 	}
 }
+
+// HookN is the variant for points that carry a number (a socket id, ...).
+var HookN func(name string, n int)
+
+// PointN reports that execution reached the named point for the given number.
+func PointN(name string, n int) {
+	if h := HookN; h != nil {
+		h(name, n)
+	}
+}
